@@ -466,6 +466,11 @@ where
     ) -> Result<Option<(SpacesState<C>, Vec<Event<C>>)>, SpaceError<F, C, RS>> {
         let mut y = self.state().await?;
 
+        // If we already processed this message return here.
+        if y.encryption_y.orderer.has_seen(message.id) {
+            return Ok(None);
+        }
+
         // Process encryption message.
         let encryption_message = EncryptionMessage::from_application(message);
         let (encryption_y, encryption_output) = {
